@@ -29,8 +29,16 @@ func Par(g *G, nprog int) []Program {
 			lx, ly, k = 2400, 1950, 4
 			regs = []string{"r0", "r1", "r2", "r3", "r4", "r5"}
 		}
-		g.Load("r0", g.Bool(), g.Digits(lx), g.Exp(), 0, g.Mode())
-		g.Load("r1", false, g.Digits(ly), g.Exp(), 0, g.Mode())
+		// moderate exponents: an addition of operands 2^31 digits apart allocates gigabytes, k goroutines at once, and eight
+		// times that under the race detector (the thorough tier was once killed by the kernel at 26 GB)
+		modExp := func() int64 {
+			if e := g.Exp(); e < 100000 && e > -100000 {
+				return e
+			}
+			return int64(g.R.Intn(801) - 400)
+		}
+		g.Load("r0", g.Bool(), g.Digits(lx), modExp(), 0, g.Mode())
+		g.Load("r1", false, g.Digits(ly), modExp(), 0, g.Mode())
 		for i := 0; i < k; i++ {
 			g.Receiver(regs[2+i], g.Pick(60, 400, maxp), g.Mode())
 		}
